@@ -17,7 +17,8 @@ from typing import Any, Optional
 from collections.abc import Callable, Iterable, Iterator
 from elementpath.protocols import ElementProtocol
 from elementpath.exceptions import xpath_error
-from elementpath.datatypes import UntypedAtomic, AnyURI, AbstractQName
+from elementpath.datatypes import UntypedAtomic, AnyURI, AbstractQName, \
+    AbstractDateTime, AbstractBinary
 from elementpath.collations import UNICODE_CODEPOINT_COLLATION, CollationManager
 from elementpath.xpath_nodes import XPathNode, EtreeElementNode, TextAttributeNode, \
     NamespaceNode, TextNode, CommentNode, ProcessingInstructionNode, EtreeDocumentNode
@@ -390,16 +391,21 @@ def get_key_function(collation: Optional[str] = None,
 
 
 def same_key(k1: Any, k2: Any) -> bool:
-    if isinstance(k1, (str, AnyURI, UntypedAtomic)):
-        if not isinstance(k2, (str, AnyURI, UntypedAtomic)):
-            return False
-        return str(k1) == str(k2)
+    string_types = (str, AnyURI, UntypedAtomic)
+    if isinstance(k1, string_types) or isinstance(k2, string_types):
+        return isinstance(k1, string_types) and isinstance(k2, string_types) and str(k1) == str(k2)
+    elif isinstance(k1, bool) or isinstance(k2, bool):
+        return isinstance(k1, bool) and isinstance(k2, bool) and k1 is k2
     elif isinstance(k1, float) and math.isnan(k1):
         return isinstance(k2, float) and math.isnan(k2)
-    elif isinstance(k1, AbstractQName) ^ isinstance(k2, AbstractQName):
-        return False
+    elif isinstance(k1, (AbstractDateTime, AbstractBinary, AbstractQName)) or \
+            isinstance(k2, (AbstractDateTime, AbstractBinary, AbstractQName)):
+        if not isinstance(k1, k2.__class__) and not isinstance(k2, k1.__class__):
+            return False  # different primitive types (e.g. xs:date and xs:dateTime)
+        elif isinstance(k1, AbstractDateTime) and (k1.tzinfo is None) ^ (k2.tzinfo is None):
+            return False
 
     try:
         return True if k1 == k2 else False
-    except TypeError:
+    except (TypeError, ValueError, ArithmeticError):
         return False  # EAFP :)
